@@ -21,9 +21,9 @@ import tlaval
 
 MANIFEST = dict(
     technique='TLA+ I-spec Neigh (link address cache ring + resolution goroutines; TLC exhaustive, all races of lookup / add / timeout / expiry / eviction) + P-spec TraceNeigh validating link-tap and sockets-API observations of the real stack (own decoder; time used only as lower bound); scenario orders partly derived from TLC simulation of the I-spec',
-    text='TLC explores every interleaving of two concurrent lookups, replies, overwrites, retry timeouts, expiry and ring eviction on a 2..3-entry ring with 3 addresses: a hit returns the link address most recently added for exactly that key and never an expired one, waiters are always notified when their entry leaves incomplete or is evicted, changeState never takes a transition on which the Go code panics, a resolution sends at most 3 requests. On the real stack TLC decides for every trace: an injected ARP request / neighbour solicitation is answered exactly once iff the target is an own address (sender fields = own MAC + target, target fields and link destination = requester), malformed ones never; after a reply or a request addressed to the stack traffic for that neighbour goes to the learned MAC without a new request; no packet for an unresolved next hop (also via a gateway) is emitted; requests are broadcast, at least 0.9 s apart, at most 3 per resolution; the waiting Write / Connect / GetLinkAddress proceeds with the learned MAC or fails with the no-link-address error only after the third request plus one more timeout; mappings (also ones that overwrote an older mapping or a failed resolution of the same address, whose stale ring slot is recycled earlier) survive exactly until 512 newer entries exist and are never used for another key after ring wrap, nor 60 s after they were learned (thorough tier: one real 61 s scenario).',
+    text='TLC explores every interleaving of two concurrent lookups, replies, overwrites, retry timeouts, expiry and ring eviction on a 2..3-entry ring with 3 addresses: a hit returns the link address most recently added for exactly that key and never an expired one, waiters are always notified when their entry leaves incomplete or is evicted, changeState never takes a transition on which the Go code panics, a resolution sends at most 3 requests. On the real stack TLC decides for every trace: an injected ARP request / neighbour solicitation is answered exactly once iff the target is an own address (sender fields = own MAC + target, target fields and link destination = requester), malformed ones never; after a reply or a request addressed to the stack traffic for that neighbour goes to the learned MAC without a new request; no packet for an unresolved next hop (also via a gateway) is emitted; requests are broadcast, at least 0.9 s apart, at most 3 per resolution; the waiting Write / Connect / GetLinkAddress proceeds with the learned MAC or fails with the no-link-address error only after the third request plus one more timeout; mappings (also ones that overwrote an older mapping or a failed resolution of the same address, whose stale ring slot is recycled earlier) survive exactly until 512 newer entries exist and are never used for another key after ring wrap, nor once their 60 s life time is over: real-time scenarios (one in the quick tier, 13 in the thorough tier, run beside everything else) learn a mapping, check that it is still used without a request after 43-49 s, idle to 65+ s and require a new request before any datagram (answered: the new MAC is used; unanswered: failure after the budget), and require a failed entry to be retried after its life time.',
     design='5 C12',
-    note='Only lower bounds on time (a give-up after 20 s of real time produces a ret event the spec rejects, subject to the reproduce-once rule). Learning from requests NOT addressed to the stack is neither required nor forbidden by the statement: the P-spec allows both. Connected sockets / TCP connections keep the link address their route resolved once (route-level caching): scenarios do not overwrite a mapping while such a socket is in use. The stale-timer race of the I-spec (NoEarlyFail, see Neigh.tla) needs an eviction or expiry inside the microsecond window between a timer firing and checkLinkRequest taking the lock; it is reported in the evidence, not driven on the real code. Entry expiry on real code is exercised only in the thorough tier (61 s).')
+    note='Only lower bounds on time (a give-up after 20 s of real time produces a ret event the spec rejects, subject to the reproduce-once rule). Learning from requests NOT addressed to the stack is neither required nor forbidden by the statement: the P-spec allows both. Connected sockets / TCP connections keep the link address their route resolved once (route-level caching): scenarios do not overwrite a mapping while such a socket is in use. The stale-timer race of the I-spec (NoEarlyFail, see Neigh.tla) needs an eviction or expiry inside the microsecond window between a timer firing and checkLinkRequest taking the lock; it is reported in the evidence, not driven on the real code.  The cache reads time.Now() directly, so the life-time scenarios cost 66-70 s of real time (overlapped with the rest of the check); the P-spec asserts must-use only up to 55 s and must-re-resolve only from 61 s after the mapping was learned or confirmed.')
 
 SPEC = ['neigh']
 OWNMAC = '02:00:00:00:00:01'
@@ -321,7 +321,8 @@ def sim_to_scenario(rng, steps):
 
 
 def expiry_scenario(rng):
-    """One real 61 s scenario: a learned mapping must not be used after its life time; a failed one is retried."""
+    """One real 70 s scenario: a learned mapping must not be used after its life time; a failed one is retried.
+    (A repeated announcement with the same MAC at 30 s does not refresh the entry in this stack; the P-spec allows both.)"""
     s = Sc('expiry', giveup=30000)
     s.op(arp_rep(mac(0x100), '10.0.0.16'))
     s.op(dict(op='add', addr='fd00::10', mac=mac(0x106)))
@@ -331,7 +332,7 @@ def expiry_scenario(rng):
     s.op(dict(op='sleep', ms=30000))
     s.op(arp_rep(mac(0x100), '10.0.0.16'))     # repeated announcement (same MAC)
     s.sync('write', '10.0.0.16')
-    s.op(dict(op='sleep', ms=34500))           # > 60 s after every learning event above, > 60 s after the failure
+    s.op(dict(op='sleep', ms=34500))           # > 61 s after every learning event above, > 61 s after the failure
     a = s.bg('write', '10.0.0.16')
     s.op(dict(op='waitreq', h='10.0.0.16', n=1, ms=2000))
     s.op(arp_rep(mac(0x101), '10.0.0.16'))
@@ -341,9 +342,44 @@ def expiry_scenario(rng):
     s.op(na('fd00::10', 'fd00::10', mac(0x107)))
     s.wait(b)
     c = s.bg('write', '10.0.0.17')            # the failed entry expired as well: a new resolution, answered this time
-    s.op(dict(op='waitreq', h='10.0.0.17', n=1, ms=2000))
+    s.op(dict(op='waitreq', h='10.0.0.17', n=4, ms=2000))
     s.op(arp_rep(mac(0x111), '10.0.0.17'))
     s.wait(c)
+    return s.d
+
+
+def expiry_variant(rng, j):
+    """Real-time life-time scenarios (about 66-70 s each, all run side by side).  The entry life time is 60 s and the cache
+    reads time.Now() directly, so real time has to pass.  Idle <= ~50 s: the mapping must still be used without a request;
+    idle >= 62 s: a lookup must start a new resolution (request before any datagram), which succeeds when answered and fails
+    after the budget when not; a failed (negative) entry must be retried after its life time."""
+    v = 6 if j % 3 == 2 else 4
+    A = (lambda k: 'fd00::%x' % (0x10 + k)) if v == 6 else (lambda k: '10.0.0.%d' % (16 + k))
+    s = Sc('expiry', giveup=30000)
+    s.op(learn_op(rng, v, A(0), mac(0x100)))
+    f = s.bg(rng.choice(['write', 'getlink', 'connect']), A(1))       # nobody answers: failed entry at about 3 s
+    if rng.random() < 0.5:
+        s.sync(rng.choice(['write', 'getlink']), A(0))
+    s.wait(f)
+    s.sync(rng.choice(['write', 'getlink']), A(1))                     # negative answer, immediately
+    first = rng.choice([40000, 45000])
+    s.op(dict(op='sleep', ms=first))                                   # 43..49 s: still young
+    s.sync(rng.choice(['write', 'getlink', 'connect']), A(0))          # must be used without a request
+    s.op(dict(op='sleep', ms=62500 - first + rng.choice([0, 1500, 3000])))   # >= 65 s after everything above
+    kind = rng.choice(['write', 'getlink', 'connect', 'cwrite'])
+    a = s.bg(kind, A(0))                                               # expired: a new request must precede the datagram
+    if j % 2 == 0:
+        s.op(dict(op='waitreq', h=A(0), n=1, ms=3000, then_ms=rng.choice([0, 100, 1200])))
+        s.op(learn_op(rng, v, A(0), mac(0x101)))                       # the peer changed its MAC meanwhile
+        s.wait(a)
+        s.sync(rng.choice(['write', 'getlink']), A(0))
+    else:
+        s.wait(a)                                                      # unanswered: fails after the retry budget
+    b = s.bg(rng.choice(['write', 'getlink', 'connect']), A(1))        # the failed entry expired: a NEW resolution (requests 4..)
+    if j % 4 < 2:
+        s.op(dict(op='waitreq', h=A(1), n=4, ms=3000))
+        s.op(learn_op(rng, v, A(1), mac(0x111)))
+    s.wait(b)
     return s.d
 
 
@@ -432,12 +468,84 @@ def classify(seg, ln):
     return None
 
 
+OLDMAC = '2.0.0.0.1.0'      # mac(0x100) in trace form
+
+
+def expiry_bad_trace(seg):
+    """Binding self-test for the life-time clause: what a stack that never expires entries would have produced."""
+    for j, e in enumerate(seg):
+        if e['ev'] == 'call' and e['t'] > 61500000 and e['h'] in ('10.0.0.16', '253.0.0.0.0.0.0.0.0.0.0.0.0.0.0.16'):
+            b = copy.deepcopy(seg[:j + 1])
+            t = e['t'] + 100
+            if e['kind'] == 'getlink':
+                b.append(dict(ev='ret', id=e['id'], err='', mac=OLDMAC, blocks=0, t=t))
+            else:
+                b.append(dict(ev='emit', cls='data', kind='udp', ok=True, h=e['h'], dst=e['dst'], dport=e['dport'], n=16, v=e['v'], rmac=OLDMAC, len=44, t=t))
+                b.append(dict(ev='ret', id=e['id'], err='', mac='', blocks=0, t=t + 1))
+            b.append(dict(ev='end', t=t + 2))
+            return b
+    return None
+
+
+def run_expiry(ctx, drv, scs, out):
+    """Real-time life-time scenarios in their own driver invocation, beside everything else (quick tier: one scenario)."""
+    try:
+        segs = drive(ctx, drv, scs, 'expiry')
+        # the self-test trace is built from the first scenario and validated beside the real ones
+        bad = next((x for x in (expiry_bad_trace(sg) for sg in segs) if x), None)
+        st = {}
+
+        def selft():
+            try:
+                a, rj = vlib.validate_segments(ctx, 'TraceNeigh', TC, SPEC, [bad], name='selftest-expiry', count=False)
+                st['rejected'] = bool(rj)
+            except BaseException as e:
+                st['exc'] = e
+        t = threading.Thread(target=selft)
+        if bad is not None:
+            t.start()
+        acc, rej = vlib.validate_segments(ctx, 'TraceNeigh', TC, SPEC, segs, name='expiry')
+        if bad is not None:
+            t.join()
+        if 'exc' in st:
+            raise st['exc']
+        out.update(scs=scs, segs=segs, acc=acc, rej=rej, selftest=st.get('rejected', False))
+    except BaseException as e:
+        out['exc'] = e
+
+
+def report_rejections(ctx, drv, scs, segs, rej, tag):
+    for si, ln in rej:
+        # reproduce once (verdict rule): re-run the single scenario; only a reproduced rejection counts
+        seg2 = drive(ctx, drv, [scs[si]], 'retry-%s%d' % (tag, si), par=1)
+        a2, r2 = vlib.validate_segments(ctx, 'TraceNeigh', TC, SPEC, seg2, name='retry-%s%d' % (tag, si), count=False)
+        if not r2:
+            ctx.extra.setdefault('unreproduced', []).append(dict(scenario='%s%d' % (tag, si), event=ln))
+            continue
+        ev = segs[si][ln] if ln < len(segs[si]) else {}
+        ln2 = r2[0][1]
+        ev2 = seg2[0][ln2] if ln2 < len(seg2[0]) else {}
+        ctx.violation('neighbour resolution rejected by the C12 P-spec (%s scenario) at event %d %s; on re-run at event %d %s' % (
+            scs[si].get('fam'), ln, describe(ev), ln2, describe(ev2)),
+            dict(kind='scenario', scenario=scs[si], events=segs[si][:ln + 1], rerun_events=seg2[0][:ln2 + 1]),
+            key=classify(segs[si], ln))
+
+
 def run(ctx):
     # many small JVMs run side by side: keep each one's helper threads few
     os.environ.setdefault('_JAVA_OPTIONS', '-XX:ParallelGCThreads=2 -XX:CICompilerCount=2')
     drv = ctx.go_build('neighd')
     box = []
-    ths = run_e1(ctx, box)
+    # the entry life time (60 s) is read from time.Now() inside the cache: not reachable without touching /repo, so real
+    # time passes: one scenario in the quick tier, a dozen in the thorough tier, all beside the rest of the check
+    erng = __import__('random').Random(ctx.seed * 104729 + 5)
+    escs = [expiry_variant(erng, j) for j in range(ctx.pick(1, 12))]
+    if ctx.thorough():
+        escs.append(expiry_scenario(erng))
+    eout = {}
+    eth = threading.Thread(target=run_expiry, args=(ctx, drv, escs, eout))
+    eth.start()
+    ths = run_e1(ctx, box) + [eth]
     try:
         # behaviours of the I-spec -> scenarios, driven while the seeded families run
         simbox = {}
@@ -455,8 +563,6 @@ def run(ctx):
         st.start()
         n = ctx.pick(63, 963)
         scs = gen_scenarios(ctx, n)
-        if ctx.thorough():
-            scs.insert(0, expiry_scenario(ctx.rng))      # 70 s of real time: started first, runs beside all the others
         segs = drive(ctx, drv, scs, 'scen')
         st.join()
         if box:
@@ -486,20 +592,18 @@ def run(ctx):
             i = next((i for i in good if scs[i].get('fam') == fam), None)
             if i is not None:
                 ctx.sample(dict(kind='scenario-trace', family=fam, events=[describe(e) for e in segs[i][:14]]))
-        for si, ln in rej:
-            # reproduce once (verdict rule): re-run the single scenario; only a reproduced rejection counts
-            seg2 = drive(ctx, drv, [scs[si]], 'retry%d' % si, par=1)
-            a2, r2 = vlib.validate_segments(ctx, 'TraceNeigh', TC, SPEC, seg2, name='retry%d' % si, count=False)
-            if not r2:
-                ctx.extra.setdefault('unreproduced', []).append(dict(scenario=si, event=ln))
-                continue
-            ev = segs[si][ln] if ln < len(segs[si]) else {}
-            ln2 = r2[0][1]
-            ev2 = seg2[0][ln2] if ln2 < len(seg2[0]) else {}
-            ctx.violation('neighbour resolution rejected by the C12 P-spec (%s scenario) at event %d %s; on re-run at event %d %s' % (
-                scs[si].get('fam'), ln, describe(ev), ln2, describe(ev2)),
-                dict(kind='scenario', scenario=scs[si], events=segs[si][:ln + 1], rerun_events=seg2[0][:ln2 + 1]),
-                key=classify(segs[si], ln))
+        report_rejections(ctx, drv, scs, segs, rej, 's')
+        # the real-time life-time scenarios
+        eth.join()
+        if 'exc' in eout:
+            raise eout['exc']
+        ctx.traces += eout['acc']
+        report_rejections(ctx, drv, eout['scs'], eout['segs'], eout['rej'], 'e')
+        if not eout['rej'] and not eout.get('selftest'):
+            raise vlib.Inconclusive('binding self-test (life time): a trace using a mapping 61 s after it was learned was accepted or could not be built')
+        ctx.extra['expiry'] = ('entry life time 60 s is read from time.Now() directly (no hook, /repo untouched): %d real-time scenario(s) of 66-70 s ran '
+                               'beside the rest; must-use asserted up to 55 s, must-re-resolve from 61 s; self-test (stale mapping used after 61 s) %s' % (
+                                   len(eout['scs']), 'rejected' if eout.get('selftest') else 'skipped: scenario itself rejected'))
         # verdict of the binding self-tests (after the violations: a broken tree must be reported as such)
         if 'exc' in stest or bad & set(stest.get('bases', [])):
             if ctx.violations:
